@@ -31,7 +31,7 @@ type c17Scenario struct {
 	Tracking   bool      `json:"tracking"`
 	Generator  string    `json:"generator"` // default, underscore, rotate, table
 	PreRefuse  int       `json:"pre_refuse"`
-	Welcome    string    `json:"welcome"` // same, other
+	Welcome    string    `json:"welcome"` // same, other, recased
 	JoinChan   bool      `json:"join_chan"` // tracking: share a channel with other users
 	PlainWelcome bool    `json:"plain_welcome"` // the welcome text does not end in nick!user@host
 	ForeignMask  bool    `json:"foreign_mask"`  // the welcome text ends in somebody else's mask (a contact address)
@@ -68,7 +68,7 @@ func genC17(t *rapid.T) *c17Scenario {
 		Tracking:  rapid.Bool().Draw(t, "tracking"),
 		Generator: rapid.SampledFrom([]string{"default", "default", "underscore", "rotate", "table"}).Draw(t, "generator"),
 		PreRefuse: rapid.SampledFrom([]int{0, 0, 1, 2, 4, 0, 0, 1, 2, 4, 10, 12, 62}).Draw(t, "pre_refuse"), // (10 and 62: once round the last character's alphabet)
-		Welcome:   rapid.SampledFrom([]string{"same", "same", "other"}).Draw(t, "welcome"),
+		Welcome:   rapid.SampledFrom([]string{"same", "same", "other", "recased"}).Draw(t, "welcome"),
 		JoinChan:  rapid.Bool().Draw(t, "join_chan"),
 		PlainWelcome: rapid.Bool().Draw(t, "plain_welcome"),
 		ForeignMask:  rapid.IntRange(0, 3).Draw(t, "foreign_mask") == 0,
@@ -82,6 +82,9 @@ func genC17(t *rapid.T) *c17Scenario {
 	}
 	if sc.Welcome == "other" {
 		cur = "srvgiven"
+	}
+	if sc.Welcome == "recased" {
+		cur = c17SwapCase(cur)
 	}
 	if rapid.IntRange(0, 2).Draw(t, "swap_generator") == 0 {
 		sc.SwapGen = rapid.SampledFrom([]string{"default", "underscore", "rotate", "table"}).Draw(t, "swapped_generator")
@@ -118,7 +121,7 @@ func genC17(t *rapid.T) *c17Scenario {
 			}
 			sc.Steps = append(sc.Steps, c17Step{Kind: "toggle_tracking"})
 		case "clientnick":
-			want := rapid.SampledFrom([]string{"newnick", "bot", "me", "x" + cur, cur + "2", "Zed"}).Draw(t, "want")
+			want := rapid.SampledFrom([]string{"newnick", "bot", "me", "x" + cur, cur + "2", "Zed", c17SwapCase(cur)}).Draw(t, "want") // (the last: only the letter case changes)
 			refuse := rapid.SampledFrom([]int{0, 0, 1, 2, 3}).Draw(t, "refuse")
 			// the chain of generated nicks must not run into the current nick or another user
 			chain, ok := want, want != cur
@@ -143,7 +146,7 @@ func genC17(t *rapid.T) *c17Scenario {
 			}
 			prev, cur = cur, final
 		case "forced":
-			y := rapid.SampledFrom([]string{"Guest123", "forced", cur + "_", strings.ToUpper(cur) + "x"}).Draw(t, "forced")
+			y := rapid.SampledFrom([]string{"Guest123", "forced", cur + "_", strings.ToUpper(cur) + "x", c17SwapCase(cur)}).Draw(t, "forced")
 			if y == cur || y == others[0] || y == others[1] {
 				continue
 			}
@@ -163,6 +166,20 @@ func genC17(t *rapid.T) *c17Scenario {
 		}
 	}
 	return sc
+}
+
+// c17SwapCase flips the case of every letter: a server lets a client change just the spelling of its nick.
+func c17SwapCase(s string) string {
+	b := []byte(s)
+	for i, c := range b {
+		switch {
+		case c >= 'a' && c <= 'z':
+			b[i] = c - 32
+		case c >= 'A' && c <= 'Z':
+			b[i] = c + 32
+		}
+	}
+	return string(b)
 }
 
 func runC17(sc *c17Scenario) *Violation {
@@ -259,6 +276,9 @@ func runC17(sc *c17Scenario) *Violation {
 	cur := requested
 	if sc.Welcome == "other" {
 		cur = "srvgiven"
+	}
+	if sc.Welcome == "recased" {
+		cur = c17SwapCase(requested) // the server knows the account under another spelling
 	}
 	if sc.ForeignMask {
 		conn.SendLine(fmt.Sprintf(":irc.server 001 %s :Welcome to ExampleNet %s - problems? ask help!desk@example.net", cur, cur))
